@@ -182,9 +182,20 @@ FLAG_CELLS = {
 }
 
 
+FLAG_CELLS["<:BALANCE:AMOUNT"] = ("ltBalanceSorted", [
+    (r"\{ bool no_amounts = true; foreach \(const balance_t::amounts_map::value_type& pair, as_balance\(\)\.amounts\) \{ if \(pair\.second >= val\) return false; no_amounts = false; \} return ! no_amounts; \}", False),
+    (r"\{ bool no_amounts = true; balance_t::amounts_array sorted; as_balance\(\)\.sorted_amounts\(sorted\); foreach \(const amount_t \* amt, sorted\) \{ if \(\*amt >= val\) return false; no_amounts = false; \} return ! no_amounts; \}", True)],
+    "value.cc is_less_than, BALANCE < INTEGER/AMOUNT: are the balance's components walked in sorted_amounts order (true) or in unordered_map order (false)?")
+# cells that must carry the same text as a flag cell (shared case labels)
+SAME_AS = {"<:BALANCE:INTEGER": "<:BALANCE:AMOUNT"}
+
+
 def gen_value_cells():
     cells = value_cells()
     need(len(cells) == 54, "expected 54 numeric value cells, got %d" % len(cells))
+    for k, k2 in SAME_AS.items():
+        need(cells[k] == cells[k2], "value.cc cell %s no longer shares its body with %s" % (k, k2))
+        cells.pop(k)
     for k in FLAG_CELLS:
         cells.pop(k)
     lines = ["/- GENERATED by tools/extract.py from src/value.cc - do not edit. -/",
